@@ -800,13 +800,42 @@ class C18Executor(Executor):
     def call(self, st, f, args, kwargs, node):
         if isinstance(f, VExt) and f.sort == "Transport":
             return transport_call(self, st, f, args, kwargs, node)
-        if isinstance(f, VFunc) and f.how == "classattr" and f.b == "__init__" and isinstance(f.a, str) and f.a not in self.module.classes \
+        if isinstance(f, VFunc) and f.how == "classattr" and f.b == "__init__" and isinstance(f.a, str) \
                 and args and isinstance(args[0], VRef) and not kwargs:
+            # `Exception.__init__(self, msg)` / (round 8) `Base.__init__(self, msg)` for a class of the module that, like all of
+            # its ancestors, defines no constructor of its own: BaseException's -- stores `args`, touches no named attribute
             import builtins
-            b = getattr(builtins, f.a.split(".")[-1], None)
-            if isinstance(b, type) and issubclass(b, BaseException):
-                return [(st, NONE)]      # `Exception.__init__(self, msg)`: stores `args`, touches no named attribute
+            bt = None if f.a in self.module.classes else getattr(builtins, f.a.split(".")[-1], None)
+            if (isinstance(bt, type) and issubclass(bt, BaseException)) or \
+                    (f.a in self.module.classes and self.plain_exception_ancestry(f.a, own_too=True)):
+                return [(st, NONE)]
         return super().call(st, f, args, kwargs, node)
+
+    def plain_exception_ancestry(self, cname, own_too):
+        """True when construction of class `cname` is left to BaseException: every ancestor (with `own_too` the class itself as
+        well) is a class of the module without __init__ / __new__ / __setattr__ and without class keywords, or a built-in
+        exception class."""
+        import builtins
+        todo, seen, first = [cname], set(), not own_too
+        while todo:
+            cname = todo.pop()
+            if cname in seen:
+                continue
+            seen.add(cname)
+            cd = self.module.classes.get(cname)
+            if cd is None:
+                b = getattr(builtins, cname, None)
+                if not (isinstance(b, type) and issubclass(b, BaseException)):
+                    return False
+                continue
+            if not first and any(isinstance(x, (_ast.FunctionDef, _ast.AsyncFunctionDef)) and x.name in ("__init__", "__new__", "__setattr__")
+                                 for x in cd.body):
+                return False
+            if cd.keywords:
+                return False
+            first = False
+            todo.extend(_ast.unparse(b) for b in cd.bases)
+        return True
 
     # -- zero-argument super() inside an exception class (round 6) ---------------------
     def b_super(self, st, args, kwargs, node):
@@ -818,25 +847,8 @@ class C18Executor(Executor):
         q = next((k for k, n_ in self.module.functions.items() if n_ is fnode), None)
         if args or kwargs or q is None or "." not in q:
             return self.havoc_call(st, "super", args, node)
-        todo, seen, first = [q.rsplit(".", 1)[0]], set(), True
-        while todo:
-            cname = todo.pop()
-            if cname in seen:
-                continue
-            seen.add(cname)
-            cd = self.module.classes.get(cname)
-            if cd is None:
-                b = getattr(builtins, cname, None)
-                if not (isinstance(b, type) and issubclass(b, BaseException)):
-                    return self.havoc_call(st, "super", args, node)
-                continue
-            if not first and any(isinstance(x, (_ast.FunctionDef, _ast.AsyncFunctionDef)) and x.name in ("__init__", "__new__", "__setattr__")
-                                 for x in cd.body):
-                return self.havoc_call(st, "super", args, node)
-            if cd.keywords:
-                return self.havoc_call(st, "super", args, node)
-            first = False
-            todo.extend(_ast.unparse(b) for b in cd.bases)
+        if not self.plain_exception_ancestry(q.rsplit(".", 1)[0], own_too=False):
+            return self.havoc_call(st, "super", args, node)
         return [(st, VExt("ExceptionSuper"))]
 
     # -- `f(**d)` with a dict whose keys are known (round 6) -------------------------
@@ -1504,7 +1516,34 @@ class C18Executor(Executor):
             stmts = self.loop_over_helper(s, st)
             if stmts is not None:
                 return self.exec_block(stmts, st)
+            if self.is_reyield_loop(s, st):
+                # round 8: `for x in E: yield x` == `yield from E` (same yields in the same order, same exceptions and effects;
+                # only send()/throw() delegation differs, which no clause observes)
+                y = _ast.Expr(value=_ast.YieldFrom(value=s.iter))
+                _ast.copy_location(y, s)
+                _ast.fix_missing_locations(y)
+                return self.exec_block([y], st)
         return super().s_For(s, st)
+
+    def is_reyield_loop(self, s, st):
+        """`for x in E: yield x` with nothing else in the body, no `else`, x a plain name that the function reads nowhere else
+        (after a `yield from` it would stay unbound), in a function whose contract has no loop specification for the role of
+        this loop (a loop that has its invariant keeps it)."""
+        if s.orelse or len(s.body) != 1 or not isinstance(s.target, ast_Name) or not isinstance(s, _ast.For):
+            return False
+        b = s.body[0]
+        if not (isinstance(b, _ast.Expr) and isinstance(b.value, _ast.Yield) and isinstance(b.value.value, ast_Name)
+                and b.value.value.id == s.target.id):
+            return False
+        fnode = self.cur_fn_stack[-1] if self.cur_fn_stack else None
+        if fnode is None or any(isinstance(x, ast_Name) and x.id == s.target.id and x is not b.value.value and x is not s.target
+                                for x in _ast.walk(fnode)):
+            return False
+        c = self.contract
+        if c is None or not any(isinstance(k, str) for k in c.loops):
+            return False
+        role = self.role_of_iter(s.iter, st)
+        return role is not None and role not in c.loops
 
     def e_YieldFrom(self, n, st):
         if self.inline_depth == 0:
